@@ -229,7 +229,7 @@ def draw(rng):
 
 def run_shard(spec, rng, ctx):
     end = C.budget(spec)
-    while time.time() < end:
+    while C.now() < end:
         judge(draw(rng), ctx)
 
 
